@@ -2459,7 +2459,18 @@ class CanMatrix(object):
                         if define in signal.attributes:
                             signal.attributes[define] = self.signal_defines[define].values[int(float(signal.attributes[define]))]
 
+        for define in self.global_defines:
+            if self.global_defines[define].type == "ENUM" and define in self.attributes:
+                try:
+                    self.attributes[define] = self.global_defines[define].values[int(float(self.attributes[define]))]
+                except (ValueError, IndexError):
+                    pass  # not an index: the value's name was stored
+
     def enum_attribs_to_keys(self):  # type: () -> None
+        for define in self.global_defines:
+            if self.global_defines[define].type == "ENUM" and define in self.attributes:
+                if self.attributes[define] in self.global_defines[define].values:
+                    self.attributes[define] = str(self.global_defines[define].values.index(self.attributes[define]))
         for define in self.ecu_defines:
             if self.ecu_defines[define].type == "ENUM":
                 for bu in self.ecus:
